@@ -145,7 +145,10 @@ class Machine:
     def _ref_of(self, fr, pl):
         # &place
         if not pl["p"]:
-            return ("ref", ("val", fr["env"].get(pl["l"], ("opaque",))))
+            v0 = fr["env"].get(pl["l"], ("opaque",))
+            if v0[0] == "payload":
+                return ("ref", ("payload", v0[1]))  # a child moved into a local: still the same child
+            return ("ref", ("val", v0))
         v = self._load(fr, pl)
         if v[0] == "opaque":
             return ("opaque",)
